@@ -59,7 +59,8 @@ struct Case {
     void skip(const std::string &why) { skipped = true; skipWhy = why; }
 };
 
-#define VF_FAIL(c, k, m) do { if (!(c).fail) { (c).fail = true; (c).key = (k); (c).msg = (m); } } while (0)
+inline std::string cleanKey(std::string k) { for (auto &ch : k) if (ch == ' ' || ch == '\t' || ch == '\n') ch = '-'; return k; } // failure keys are single words (the driver reads them from a line-oriented file)
+#define VF_FAIL(c, k, m) do { if (!(c).fail) { (c).fail = true; (c).key = vf::cleanKey(k); (c).msg = (m); } } while (0)
 #define VF_CHECK(c, cond, k, m) do { if (!(cond)) { VF_FAIL(c, k, m); } } while (0)
 
 // ---------------------------------------------------------------------------------------------
